@@ -1262,16 +1262,53 @@ theorem delete_absent_ns (s : EState) (n : NsObj) (h : ∀ x ∈ s.eng.namespace
     List.filter_eq_self.mpr (by simpa using h)
   simp only [delete, this]
 
+/-- the namespace a NetworkPolicy is stored and looked up under: `default` when it is written with none -/
+def npNs (p : NetPol) : String := if p.ns == "" then "default" else p.ns
+
 /-- the engine is unchanged; as for every NetworkPolicy update the cache is cleared -/
 theorem delete_absent_np (s : EState) (p : NetPol)
-    (h : ∀ x ∈ s.eng.netpols, ¬ (x.ns = p.ns ∧ x.name = p.name)) :
+    (h : ∀ x ∈ s.eng.netpols, ¬ (x.ns = npNs p ∧ x.name = p.name)) :
     s.delete (.np p) = (.ok, s.cacheClear) := by
-  have : s.eng.netpols.filter (fun q => !(q.ns == p.ns && q.name == p.name)) = s.eng.netpols :=
+  have : s.eng.netpols.filter (fun q => !(q.ns == npNs p && q.name == p.name)) = s.eng.netpols :=
     List.filter_eq_self.mpr (by
       intro x hx
       have h0 := h x hx
-      by_cases e1 : x.ns = p.ns <;> by_cases e2 : x.name = p.name <;> simp_all)
-  simp only [delete, this]
+      by_cases e1 : x.ns = npNs p <;> by_cases e2 : x.name = p.name <;> simp_all)
+  simp only [delete]
+  show (Out.ok, ({ s with eng := { s.eng with netpols := s.eng.netpols.filter (fun q => !(q.ns == npNs p && q.name == p.name)) } } : EState).cacheClear) = _
+  rw [this]
+
+/-- **a policy written without a namespace is deleted from where it was stored**: after `DeleteObject` no policy of
+that name is left in the namespace the insert put it in, whether the object carries a namespace or not -/
+theorem delete_np_removes (s : EState) (p : NetPol) :
+    ∀ x ∈ (s.delete (.np p)).2.eng.netpols, ¬ (x.ns = npNs p ∧ x.name = p.name) := by
+  intro x hx
+  have hx' : x ∈ s.eng.netpols.filter (fun q => !(q.ns == npNs p && q.name == p.name)) := hx
+  have := (List.mem_filter.mp hx').2
+  intro ⟨h1, h2⟩
+  simp [h1, h2] at this
+
+/-- `SetResources` (`EState.setResources`) is a history of inserts: the state it leaves is the state after inserting a
+prefix of namespaces ++ policies ++ pods, one by one (the prefix ends with the first rejected object) -/
+theorem insertAll_is_run (s : EState) (l : List Obj) :
+    ∃ k, (s.insertAll l).2 = s.run ((l.take k).map HOp.ins) := by
+  induction l generalizing s with
+  | nil => exact ⟨0, rfl⟩
+  | cons o rest ih =>
+    unfold insertAll
+    cases hi : s.insert o with
+    | mk out s' =>
+      cases out with
+      | err e => exact ⟨1, by simp [run, step, hi]⟩
+      | ok =>
+        obtain ⟨k, hk⟩ := ih s'
+        exact ⟨k + 1, by simp [run, step, hi] at hk ⊢; exact hk⟩
+      | ans b =>
+        obtain ⟨k, hk⟩ := ih s'
+        exact ⟨k + 1, by simp [run, step, hi] at hk ⊢; exact hk⟩
+      | panic =>
+        obtain ⟨k, hk⟩ := ih s'
+        exact ⟨k + 1, by simp [run, step, hi] at hk ⊢; exact hk⟩
 
 /-- the engine is unchanged; as for every admin policy update the cache is cleared -/
 theorem delete_absent_anp (s : EState) (a : ANP) (h : a.name ∉ s.eng.anpNames)
